@@ -22,3 +22,16 @@ package client
 //@   ensures id.cid == dataCID && id.version == DocIDV0 && id.uuid == res(NewV5, 1, 0)
 //@   assert before call#1 NewV5: arg1 == res(String, 1, 0) && callarg(String, 1, 0) == dataCID && arg0 == SDNNamespaceV0
 //@   tags C13
+//@
+//@ // ===== C13: content is normalised before it is hashed: for a nillable field, an absent value and a JSON
+//@ // null both become the nil value of the field's kind, whatever the kind (scalar or array)
+//@ extern (client.FieldKind).* -> (r)
+//@   pure
+//@ extern (*fastjson.Value).Type(v) -> (t)
+//@   pure
+//@ func validateFieldSchema -> (r, err)
+//@   ensures res(IsNillable, 1, 0) && val == nil ==> called(NewNormalNil, 1) && r == res(NewNormalNil, 1, 0) && err == res(NewNormalNil, 1, 1)
+//@   ensures res(IsNillable, 1, 0) && val != nil && hastype(val, *fastjson.Value) && res(Type, 1, 0) == fastjson.TypeNull ==> called(NewNormalNil, 2) && r == res(NewNormalNil, 2, 0) && err == res(NewNormalNil, 2, 1)
+//@   assert before call#1 NewNormalNil: arg0 == field.Kind
+//@   assert before call#2 NewNormalNil: arg0 == field.Kind
+//@   tags C13
